@@ -57,8 +57,10 @@ PREDS = {
     'pos': Pred('pos', lambda t: isinstance(t, (int, float)) and t > 0),
     'shortstr': Pred('shortstr', lambda t: isinstance(t, str) and len(t) < 2),
     'never': Pred('never', lambda t: False),
+    # a partial predicate: raises TypeError on targets that cannot be compared with 0 (a rejection, not an error)
+    'rawpos': Pred('rawpos', lambda t: t > 0),
 }
-PRED_SAMPLE = {'isint': ['i', 4], 'pos': ['i', 2], 'shortstr': ['s', 'q'], 'never': ['none']}
+PRED_SAMPLE = {'isint': ['i', 4], 'pos': ['i', 2], 'shortstr': ['s', 'q'], 'never': ['none'], 'rawpos': ['i', 3]}
 TYPE_SAMPLE = {'int': ['i', 3], 'str': ['s', 'st'], 'float': ['f', 2.5], 'bool': ['b', True], 'object': ['s', 'o'],
                'NoneType': ['none'], 'list': ['list', [['i', 1]]], 'dict': ['dict', [['z', ['i', 1]]]],
                'tuple': ['tuple', [['i', 1]]]}
@@ -85,8 +87,13 @@ def gen_pat(draw, d):
     if r < 44:
         return ['type', draw(st.sampled_from(sorted(TYPES)))]
     if r < 50:
-        return ['pred', draw(st.sampled_from(['isint', 'pos', 'shortstr']))]
+        return ['pred', draw(st.sampled_from(['isint', 'pos', 'shortstr', 'rawpos']))]
     if r < 60:
+        if draw(st.sampled_from(range(4))) == 0:
+            # a NON-LAST alternative that fails with a GlomError which is no MatchError (the access inside M(T[k]))
+            # on the elements the later alternative accepts
+            first = ['mt', draw(st.sampled_from(['k', 0])), draw(st.sampled_from(['==', '!=', '>'])), ['i', draw(st.integers(0, 2))]]
+            return ['list', [first, gen_pat(draw, d - 1)]]
         return ['list', [gen_pat(draw, d - 1) for _ in range(draw(st.integers(0, 2)))]]
     if r < 65:
         tag = draw(st.sampled_from(['set', 'fset']))
@@ -453,7 +460,11 @@ def refmatch(t, p):
             raise Mis('len')
         return tuple(refmatch(a, b) for a, b in zip(t, p[1]))
     if tag == 'pred':
-        if PREDS[p[1]](t):
+        try:
+            ok = PREDS[p[1]](t)
+        except Exception:
+            raise Mis('pred-raises')
+        if ok:
             return t
         raise Mis('pred')
     if tag == 'regex':
